@@ -57,9 +57,9 @@ func (k *spendKind) vflags() txscript.ScriptFlags {
 }
 
 var (
-	params    = &chaincfg.MainNetParams
-	keyDB     txscript.KeyDB
-	scriptDB  txscript.ScriptDB
+	params     = &chaincfg.MainNetParams
+	keyDB      txscript.KeyDB
+	scriptDB   txscript.ScriptDB
 	spendKinds []*spendKind
 )
 
@@ -712,9 +712,9 @@ func runSigners(r *ev.Run) {
 		shapes = []signShape{{1, 1}, {2, 2}, {3, 2}, {2, 1}}
 	}
 	type item struct {
-		k            *spendKind
-		s            signShape
-		idx, other   int
+		k          *spendKind
+		s          signShape
+		idx, other int
 	}
 	var items []item
 	for _, k := range spendKinds {
